@@ -9,10 +9,21 @@ from tools import lat
 from tools.vlib import ROOT, g_bool
 
 
+def parse_name4(name):
+    """(shape, code of A, code of B, code of the A-delta, code of the B-delta); the deltas may be
+    another representation (singleton / array / vec / option) of the same lattice"""
+    f = name.split("@")[0].split("|")
+    sh, ta, tb = f[0], f[1], f[2]
+    tda, tdb = (f[3], f[4]) if len(f) == 5 else (ta, tb)
+    return tuple(lat.parse_sexp(x) for x in (sh, ta, tb, tda, tdb))
+
+
 def parse_name(name):
-    head = name.split("@")[0]
-    sh, ta, tb = head.split("|")
-    return lat.parse_sexp(sh), lat.parse_sexp(ta), lat.parse_sexp(tb)
+    return parse_name4(name)[:3]
+
+
+def growable(rep):
+    return rep in ("Hash", "BTree", "Vec")
 
 
 def coq_shape(sh, ta, tb):
@@ -62,8 +73,20 @@ def bottom_of(t):
         return 0
     if h == "Min":
         return {"u8": 255, "bool": 1}.get(t[1], "none")
-    if h in ("Set", "Map", "Vec"):
+    if h == "Vec":
         return []
+    if h == "Set":
+        # fixed-size set representations have no bottom value
+        return [] if (growable(t[1]) or t[1] == "Option") else "none"
+    if h == "Map":
+        rep = t[1]
+        if growable(rep) or rep == "Option":
+            return []
+        inner = bottom_of(t[2])
+        if inner == "none":
+            return "none"
+        n = 1 if rep == "Singleton" else int(rep[5:])
+        return [[i, json.loads(json.dumps(inner))] for i in range(n)]
     if h == "Bot":
         return None
     if h == "Top":
@@ -116,10 +139,16 @@ def sprinkle(rng, t, v):
     h = t[0]
     if h == "Map":
         d = {k: (sprinkle(rng, t[2], x) if rng.chance(1, 2) else x) for k, x in v}
+        if not growable(t[1]):
+            # fixed-size representation: only turn an existing value into bottom
+            b = bottom_of(t[2])
+            if d and b != "none" and rng.chance(1, 2):
+                d[rng.choice(sorted(d))] = json.loads(json.dumps(b))
+            return [[k, d[k]] for k in sorted(d)]
         b = bottom_of(t[2])
         if b != "none" and rng.chance(2, 3):
             d[rng.choice(lat.KEYS)] = json.loads(json.dumps(b))
-        if lat.norm(t[2])[0] == "Map" and rng.chance(1, 3):
+        if lat.norm(t[2])[0] == "Map" and growable(lat.norm(t[2])[1]) and rng.chance(1, 3):
             # a non-empty inner map all of whose values are bottom
             bb = bottom_of(lat.norm(t[2])[2])
             if bb != "none":
@@ -141,27 +170,29 @@ def load_corpus(prop):
 
 
 def gen_one(rng, name, size):
-    sh, ta, tb = parse_name(name)
+    sh, ta, tb, tda, tdb = parse_name4(name)
+    het = (tda != ta) or (tdb != tb)
     a = lat.gen_value(rng, ta, size)
-    da = lat.gen_related(rng, ta, a, size)
+    da = lat.gen_related(rng, ta, a, size) if tda == ta else lat.gen_value(rng, tda, size)
     if ta == tb and rng.chance(1, 2):
-        b = lat.gen_related(rng, tb, rng.choice([a, da]), size)  # shared keys
+        b = lat.gen_related(rng, tb, rng.choice([a, da]) if tda == ta else a, size)  # shared keys
     else:
         b = lat.gen_value(rng, tb, size)
-    db = lat.gen_related(rng, tb, b, size)
+    db = lat.gen_related(rng, tb, b, size) if tdb == tb else lat.gen_value(rng, tdb, size)
     r = rng.below(10)
     if r < 4:
-        da = sprinkle(rng, ta, da)
+        da = sprinkle(rng, tda, da)
     if 2 <= r < 6:
-        db = sprinkle(rng, tb, db)
+        db = sprinkle(rng, tdb, db)
     if r == 6:
         a = sprinkle(rng, ta, a)
     if r == 7:
         b = sprinkle(rng, tb, b)
-    if rng.chance(1, 2):
-        a, da = da, a
-    if rng.chance(1, 2):
-        b, db = db, b
+    if not het:
+        if rng.chance(1, 2):
+            a, da = da, a
+        if rng.chance(1, 2):
+            b, db = db, b
     return {"k": "bim", "sh": name, "a": a, "da": da, "b": b, "db": db, "src": "rnd"}
 
 
@@ -210,8 +241,8 @@ def shrink(case):
     if case.get("k") == "ght":
         yield from shrink_ght(case)
         return
-    sh, ta, tb = parse_name(case["sh"])
-    for f, t in (("db", tb), ("da", ta), ("b", tb), ("a", ta)):
+    sh, ta, tb, tda, tdb = parse_name4(case["sh"])
+    for f, t in (("db", tdb), ("da", tda), ("b", tb), ("a", ta)):
         for sv in lat.shrink_value(t, case[f]):
             c2 = dict(case)
             c2[f] = sv
@@ -245,12 +276,12 @@ def distribution(cases, results):
         if "ab" not in r:
             d["panics"] += 1
             continue
-        _, ta, tb = parse_name(c["sh"])
+        _, ta, tb, tda, tdb = parse_name4(c["sh"])
         d["output_nonempty"] += 1 if r["ab"] not in ([], None) else 0
         d["delta_a_changes_output"] += 1 if r["l"] != r["ab"] else 0
         d["delta_b_changes_output"] += 1 if r["r"] != r["ab"] else 0
-        d["bottom_valued_entry_in_a_delta"] += 1 if has_bot_entry(ta, c["da"]) else 0
-        d["bottom_valued_entry_in_b_delta"] += 1 if has_bot_entry(tb, c["db"]) else 0
+        d["bottom_valued_entry_in_a_delta"] += 1 if has_bot_entry(tda, c["da"]) else 0
+        d["bottom_valued_entry_in_b_delta"] += 1 if has_bot_entry(tdb, c["db"]) else 0
         d["eq_l_false"] += 0 if r["eq_l"] else 1
         d["eq_r_false"] += 0 if r["eq_r"] else 1
     return d
